@@ -167,6 +167,7 @@ void harness_fetch_order(void)
 	scn_build_end();
 	__CPROVER_assume(dispatch(&B, again) == 0);
 	CHECK(nlog == 1 && LOG[0].kind == K_RESPONSE && LOG[0].is_error, "C01.duplicate_fetch_id_refused_without_events");
+	CHECK(LOG[0].id_type == cJSON_Number && LOG[0].id_int == 3 && LOG[0].to == &B, "C02.error_response_carries_the_request_id");
 	/* unfetch, then a change: nothing is delivered for the fetch any more */
 #ifdef DO_UNFETCH
 	int do_unfetch = 1;
